@@ -9,8 +9,16 @@ import (
 	"fmt"
 	"os"
 
+	"verifharness/c04"
+	"verifharness/c06"
+	"verifharness/c07"
+	"verifharness/c09"
 	"verifharness/c12"
+	"verifharness/c15"
+	"verifharness/c16"
+	"verifharness/c18"
 	"verifharness/c20"
+	"verifharness/e2e"
 	"verifharness/hx"
 	"verifharness/pe"
 )
@@ -22,16 +30,32 @@ var handlers = map[string]func([]string) string{
 	"C12": c12.Handle,
 	"C20": c20.Handle,
 	"PE":  pe.Handle,
+	"E2E": e2e.Handle,
 }
 
 // gens: property -> generators whose ops make up its correspondence run
 var gens = map[string][]genFunc{
 	"C12": {c12.Gen},
 	"C20": {c20.Gen},
+	"C15": {c15.Gen},
+	"C06": {c06.Gen},
+	"C18": {c18.Gen},
+	"C16": {c16.Gen},
+	"C09": {c09.Gen},
+	"C04": {c04.Gen},
+	"C07": {c07.Gen},
 }
 
 // customImpl: properties whose runner owns the whole input loop (e.g. to run ops concurrently)
-var customImpl = map[string]func(){}
+var customImpl = map[string]func(){
+	"C15": c15.Impl,
+	"C06": c06.Impl,
+	"C18": c18.Impl,
+	"C16": c16.Impl,
+	"C09": c09.Impl,
+	"C04": c04.Impl,
+	"C07": c07.Impl,
+}
 
 func forProp(prop string, g func(*bufio.Writer, uint64, string, string)) genFunc {
 	return func(w *bufio.Writer, seed uint64, tier string) { g(w, seed, tier, prop) }
@@ -40,6 +64,9 @@ func forProp(prop string, g func(*bufio.Writer, uint64, string, string)) genFunc
 func init() {
 	for _, p := range []string{"C01", "C02", "C03", "C08", "C11"} {
 		gens[p] = append(gens[p], forProp(p, pe.Gen))
+		if p == "C01" || p == "C03" || p == "C08" {
+			gens[p] = append(gens[p], forProp(p, e2e.Gen))
+		}
 	}
 }
 
